@@ -56,3 +56,129 @@ def _adds(repo):
 def _fallible(repo):
     v = vm_fallible(repo)
     return v, "def c14VmFallible : List String := [" + ", ".join(lean_str(n) for n in v) + "]"
+
+
+# ---------------------------------------------------------------------------------------------------
+# every fallible expression inside eval_impl's instruction arms and how its error leaves the loop
+_PROP = ["ctx_ok", "bail", "assert_valid", "func_binop", "op_binop", "recurse_loop", "ok", "some"]
+
+
+def _strip_comments(t):
+    return re.sub(r"//[^\n]*", "", t)
+
+
+def _macro_calls(text):
+    """[(macro, callee)] for every propagation macro call, `?` and `return Err` in text (in order)"""
+    rows = []
+    for m in re.finditer(r"\b(" + "|".join(_PROP) + r")!\s*\(", text):
+        arg = _call_args(text, m.end() - 1)
+        callee = re.sub(r"\s+", "", arg).replace("()", "")
+        callee = re.split(r"[(,]", callee, 1)[0][:60]
+        rows.append((m.start(), m.group(1), callee))
+    for m in re.finditer(r"\)\s*\?\s*[;.)\n]", text):
+        rows.append((m.start(), "try", re.sub(r"\s+", "", text[max(0, m.start() - 40):m.start() + 1])[-40:]))
+    for m in re.finditer(r"return\s+Err\s*\(", text):
+        rows.append((m.start(), "return_err", re.sub(r"\s+", "", _call_args(text, m.end() - 1))[:40]))
+    rows.sort()
+    return [(a, b) for _, a, b in rows]
+
+
+def vm_rows(repo):
+    src = read(repo, "minijinja/src/vm/mod.rs")
+    start = src.index("fn eval_impl(")
+    i = src.index("match instr {", start)
+    head = _strip_comments(src[start:i])
+    rows = []
+    # helper macros defined inside eval_impl: what they expand to
+    for m in re.finditer(r"macro_rules!\s*(\w+)\s*\{", head):
+        body = fn_body_at(head, m.end() - 1)
+        name = m.group(1)
+        for mac, callee in _macro_calls(body):
+            rows.append(("macro:" + name, "", mac, callee))
+        if "process_err(&mut err, pc, state)" in re.sub(r"\s+", " ", body):
+            rows.append(("macro:" + name, "", "calls", "process_err"))
+    # whatever runs for every instruction before the dispatch (fuel)
+    pre = head[head.rindex("macro_rules!"):]
+    pre = pre[pre.index("}") :]
+    last_macro_end = max(m.end() for m in re.finditer(r"macro_rules!\s*\w+\s*\{", head))
+    tail = head[last_macro_end:]
+    tail = tail[len(fn_body_at(head, last_macro_end - 1)) + 1:]
+    for mac, callee in _macro_calls(tail):
+        rows.append(("pre", "", mac, callee))
+    # the arms
+    body = src[i:]
+    end = body.index("\n            }\n")          # end of `match instr`
+    body = _strip_comments(body[:end])
+    arms = re.split(r"\n {16}(?=(?:#\[cfg[^\n]*\n {16})?Instruction::)", body)
+    seen_instr = set()
+    for a in arms[1:]:
+        a = re.sub(r"^#\[cfg[^\n]*\n\s*", "", a)
+        headpart, _, rest = a.partition("=>")
+        names = re.findall(r"Instruction::(\w+)", headpart)
+        # sub-arms of the comparison chain
+        pieces = re.split(r"(CompareOp::\w+(?:\s*\|\s*CompareOp::\w+)*\s*=>)", rest)
+        sub = ""
+        for piece in pieces:
+            mm = re.match(r"(CompareOp::\w+(?:\s*\|\s*CompareOp::\w+)*)\s*=>", piece)
+            if mm:
+                sub = "|".join(re.findall(r"CompareOp::(\w+)", mm.group(1)))
+                continue
+            for mac, callee in _macro_calls(piece):
+                for n in names:
+                    rows.append((n, sub, mac, callee))
+        seen_instr.update(names)
+    if len(seen_instr) < 50 or not any(r[0] == "macro:bail" and r[2] == "calls" for r in rows):
+        raise KeyError("eval_impl arms / bail macro")
+    return rows
+
+
+def fn_body_at(src, brace_index):
+    depth, j = 0, brace_index
+    while j < len(src):
+        if src[j] == "{":
+            depth += 1
+        elif src[j] == "}":
+            depth -= 1
+            if depth == 0:
+                return src[brace_index + 1:j]
+        j += 1
+    raise KeyError("unbalanced braces")
+
+
+@item("C14_VM_ROWS")
+def _rows(repo):
+    rows = vm_rows(repo)
+    # repeated rows of one arm are numbered (`callee#2`) so that each fallible call is a row of its own
+    uniq, seen = [], {}
+    for r in rows:
+        k = seen[r] = seen.get(r, 0) + 1
+        uniq.append(r if k == 1 else (r[0], r[1], r[2], f"{r[3]}#{k}"))
+    lean = ("def c14VmRows : List (String × String × String × String) := [\n  "
+            + ",\n  ".join("(" + ", ".join(lean_str(x) for x in r) + ")" for r in uniq) + "]")
+    return [list(r) for r in uniq], lean
+
+
+@item("C14_LOC_WIDTHS")
+def _widths(repo):
+    lex = read(repo, "minijinja/src/compiler/lexer.rs")
+    tok = read(repo, "minijinja/src/compiler/tokens.rs")
+    ins = read(repo, "minijinja/src/compiler/instructions.rs")
+    def bits(src, pat):
+        m = re.search(pat, src)
+        if not m:
+            raise KeyError(pat)
+        return int(m.group(1))
+    w = {
+        "line": bits(lex, r"current_line:\s*u(\d+),"),
+        "col": bits(lex, r"current_col:\s*u(\d+),"),
+        "span_line": bits(tok, r"pub start_line:\s*u(\d+),"),
+        "span_col": bits(tok, r"pub start_col:\s*u(\d+),"),
+        "span_offset": bits(tok, r"pub start_offset:\s*u(\d+),"),
+        "first_instruction": bits(ins, r"first_instruction:\s*u(\d+),"),
+        "table_line": bits(ins, r"struct LineInfo\s*\{[^}]*line:\s*u(\d+),"),
+    }
+    if not re.search(r"self\.current_line\s*=\s*self\.current_line\.saturating_add\(1\)", lex) or \
+       not re.search(r"self\.current_col\s*=\s*self\.current_col\.saturating_add\(1\)", lex):
+        raise KeyError("saturating line/column counters in Tokenizer::advance")
+    lean = "\n".join(f"def c14Bits_{k} : Nat := {v}" for k, v in w.items())
+    return w, lean
